@@ -52,7 +52,7 @@ CHECKS = {
               "pcfg_guesser.py as a subprocess (stdin /dev/null or an open pipe) and compares raw stdout bytes. Exploration."),
         design='4/C09'),
     'C12': dict(
-        technique="Hypothesis-generated event schedules over a harness-owned keyboard thread (real keypress() in a real thread, scripted input()), history oracle against the uninterrupted stream; plus repeated real-process runs under six stdin conditions; harness-owned clock and tty-ness of stdin, neighbour sessions, requests inside one pre-terminal of up to 160 000 guesses",
+        technique="Hypothesis-generated event schedules over a harness-owned keyboard thread (real keypress() in a real thread, scripted input()), history oracle against the uninterrupted stream; plus repeated real-process runs under six stdin conditions; harness-owned clock and tty-ness of stdin, neighbour sessions, requests inside one pre-terminal of up to 160 000 guesses, status requests between a pre-terminal becoming current and its expansion",
         text=("The schedule of the keyboard thread is owned by the harness: status, help, quit, EOF, lost-stdin, OSError, ValueError and "
               "failing status prints are delivered at generated loop positions (between pops, after a guess, between two Markov "
               "guesses, inside a restored Markov remainder) in histories of up to 3 runs, and the thread settles before the loop "
@@ -79,7 +79,7 @@ CHECKS = {
               "flagged run's pre-terminals and language. Exploration."),
         design='4/C14'),
     'C16': dict(
-        technique="Hypothesis property-based testing with scripted uniform draws: breakpoint sweep of the piecewise-constant sampler against exact cumulative sums, scripted in-group choices, end-to-end language/limit/reproducibility checks (in-process and CLI); CLI runs with --load histories, named sessions and different hash seeds, incl. rulesets that list a value twice",
+        technique="Hypothesis property-based testing with scripted uniform draws: breakpoint sweep of the piecewise-constant sampler against exact cumulative sums, scripted in-group choices, end-to-end language/limit/reproducibility checks (in-process and CLI); CLI runs with --load histories, named sessions and different hash seeds, incl. rulesets that list a value twice; same draws after different earlier walks select the same derivation (hand-pruned terminal lists included)",
         text=("The random source seen by the sampler is replaced by a script, so the draw can be placed exactly on, one ulp around and "
               "between every cumulative-probability breakpoint of the base list and of every variable of generated count-normalised "
               "rulesets (and of sub-normalised base lists): the selected structure/group must be the interval containing the draw, "
@@ -105,7 +105,7 @@ CHECKS = {
         design='4/C20',
         note=(NOTE_COMMON + ' Two open known findings (F20: context label X<n> counted as n characters; F20b: letters whose upper-case form is longer than one character) are matched by signature on the failing case and printed as KNOWN-FINDING; any other violation of the property still exits 1.')),
     'C10': dict(
-        technique="Hypothesis property-based testing of generated OMEN models x every level, and a Hypothesis RuleBasedStateMachine over cache histories (shared optimizer), against an independent DFS reference enumerator; deterministic work budget instead of timeouts; OMEN files in LF / CRLF / unterminated spellings",
+        technique="Hypothesis property-based testing of generated OMEN models x every level, and a Hypothesis RuleBasedStateMachine over cache histories (shared optimizer), against an independent DFS reference enumerator; deterministic work budget instead of timeouts; OMEN files in LF / CRLF / unterminated spellings; sequence equality with an empty-cache generator",
         text=("Generated OMEN models (n-gram 2-5, sparse/dense, dead-end and expensive-only contexts, length == n-gram size) are written "
               "to disk, loaded by the real loader and every level 0..12 is generated by the real MarkovCracker: no duplicates, set "
               "equal to an independent enumerator's, exhaustion reported. A rule-based state machine interleaves full runs, "
